@@ -145,6 +145,74 @@ def register(reg):
         key=f"{R}:PendingRequirement.compile[deps-order]",
     )
 
+    # =============================================================================== PendingRequirement.__init__ (+ getNameBindings)
+    def setup_pinit(I, env):
+        I.nondet_sets = True
+        ns = PDict()  # the module namespace (identity matters: `restrictTo is not namespace`)
+        cells, funcs = [], []
+        for k in range(2):
+            c = PObj("cell", tag=f"cell of helper {k}")
+            c.fields["cell_contents"] = samplable(f"random value closed over by helper {k}")
+            f = PObj("function", tag=f"helper function {k}")
+            f.fields.update(__closure__=(c,), __globals__=ns)
+            f.vars = dict(globals=PDict(), nonlocals=PDict([("v", c.fields["cell_contents"])]), builtins=PDict())
+            cells.append(c)
+            funcs.append(f)
+        req = PObj("function", tag="requirement lambda")
+        req.fields.update(__closure__=None, __globals__=ns)
+        req.vars = dict(globals=PDict([("f0", funcs[0]), ("f1", funcs[1])]), nonlocals=PDict(), builtins=PDict())
+
+        def getclosurevars(fn):
+            r = PObj("ClosureVars", tag=f"closure vars of {fn.tag}")
+            r.fields.update(globals=PDict(list(zip(fn.vars["globals"].keys, fn.vars["globals"].vals))), nonlocals=PDict(list(zip(fn.vars["nonlocals"].keys, fn.vars["nonlocals"].vals))), builtins=PDict())
+            return r
+
+        reg.extra_modules = getattr(reg, "extra_modules", None) or {}
+        reg.extra_modules["inspect"] = bm.NativeModule(
+            "inspect",
+            {"getclosurevars": BuiltinFn("getclosurevars", getclosurevars), "isfunction": BuiltinFn("isfunction", lambda v: isinstance(v, PObj) and v.cls == "function")},
+        )
+        atom = PObj("Atomic", tag="atomic proposition")
+        atom.fields["closure"] = req
+        cond = PObj("Proposition", tag="condition")
+        cond.fields["atomics"] = BuiltinFn("atomics", lambda: PList([atom]))
+        scen = PObj("DynamicScenario", tag="scenario")
+        env.vars["_cells"] = cells
+
+        def fresh_self():
+            return PObj(repo_class(f"{R}:PendingRequirement"), tag="pending requirement")
+
+        env.vars["_fresh_self"] = fresh_self
+        env.vars["_args"] = ["require", cond, 3, 1, None, None, None, scen]
+        env.vars.update(self=fresh_self(), ty="require", condition=cond, line=3, prob=1, name=None, ego=None, recConfig=None, scenario=scen)
+
+    def post_pinit(I, env, outcome):
+        name = "requirements.PendingRequirement.__init__"
+        if outcome[0] != "return":
+            return
+        run1 = list(env.vars["self"].fields["cells"].items)
+        s2 = env.vars["_fresh_self"]()
+        I.run_function(target_function(I, f"{R}:PendingRequirement.__init__"), [s2] + env.vars["_args"], {}, _contract_of(reg, f"{R}:PendingRequirement.__init__[cells-order]"))
+        run2 = list(s2.fields["cells"].items)
+        cells = env.vars["_cells"]
+        I.eng.check(f"{name}#ensures.every_cell_of_every_referenced_closure_is_collected", len(run1) == 2 and all(any(c is x for x in run1) for c in cells))
+        I.eng.check(f"{name}#deterministic.closure_cells_in_the_same_order_in_every_run", same_sequence(run1, run2), detail=f"run 1: {seq_repr(run1)}; run 2: {seq_repr(run2)}")
+
+    reg.add(
+        C.Contract(
+            f"{R}:PendingRequirement.__init__",
+            params=dict(self=C.Const(None), ty=C.Const(None), condition=C.Const(None), line=C.Const(None), prob=C.Const(None), name=C.Const(None), ego=C.Const(None), recConfig=C.Const(None), scenario=C.Const(None)),
+            setup=setup_pinit,
+            post=post_pinit,
+            inline=["getNameBindings", "getNameBindings.handleFunctions"],
+            replay=replay_closure_order,
+            bounded=True,
+            note="bounded: a requirement whose condition calls two module-level helper functions, each closing over one random value (`inspect.getclosurevars` modelled)",
+            properties=("C15",),
+        ),
+        key=f"{R}:PendingRequirement.__init__[cells-order]",
+    )
+
     # =============================================================================== DynamicScenario._compileRequirements
     def make_dynscen(I, vals):
         """A scenario with two pending requirements whose `compile` delivers ordered dependency collections."""
@@ -281,8 +349,9 @@ def register(reg):
         I.run_function(target_function(I, f"{S}:Scenario.__init__"), args, {}, _contract_of(reg, f"{S}:Scenario.__init__[dependencies-order]"))
         run2 = list(s2.fields["dependencies"])
         pre, suf = env.vars["_expected_prefix"], env.vars["_expected_suffix"]
-        ok = len(run1) == len(pre) + 3 + len(suf) and same_sequence(run1[: len(pre)], pre) and same_sequence(run1[-len(suf) :], suf) and all(any(x is y for y in run1[len(pre) : len(pre) + 3]) for x in vals)
-        I.eng.check(f"{name}#ensures.dependencies_are_instances_then_parameters_then_requirement_deps_then_behavior_globals", ok, detail=seq_repr(run1))
+        everything = list(pre) + list(vals) + list(suf)
+        ok = len(run1) == len(everything) and all(len([y for y in run1 if y is x]) == 1 for x in everything)
+        I.eng.check(f"{name}#ensures.dependencies_are_exactly_instances_random_parameters_requirement_deps_and_random_behavior_globals", ok, detail=seq_repr(run1))
         I.eng.check(f"{name}#deterministic.dependencies_in_the_same_order_in_every_run", same_sequence(run1, run2), detail=f"run 1: {seq_repr(run1)}; run 2: {seq_repr(run2)}")
         I.eng.check(f"{name}#ensures.ego_is_the_first_object_others_keep_their_order", same_sequence(list(env.vars["self"].fields["objects"]), [sh["egoObject"]] + [o for o in sh["objects"].items if o is not sh["egoObject"]]))
 
@@ -562,13 +631,18 @@ print("ORDER", "".join(order), its)
 
 def replay_dependency_order(inputs, clause):
     """The same program, options and seed in fresh processes that differ only in heap history / hash seed."""
+    return _run_order_script(ORDER_SCRIPT, "7 requirement dependencies")
+
+
+def _run_order_script(script, what):
     import os
     import subprocess
     import sys
     import tempfile
+    import time
 
     with tempfile.NamedTemporaryFile("w", suffix=".py", delete=False) as f:
-        f.write(ORDER_SCRIPT)
+        f.write(script)
         path = f.name
     procs = []
     for seed in range(3):
@@ -577,8 +651,6 @@ def replay_dependency_order(inputs, clause):
         env["PYTHONHASHSEED"] = str(seed)
         procs.append(subprocess.Popen([sys.executable, path, str(seed)], stdout=subprocess.PIPE, stderr=subprocess.PIPE, text=True, env=env))
     outs = []
-    import time
-
     deadline = time.time() + 95  # the framework treats a replay that takes 120 s as non-termination: never get there
     try:
         for p in procs:
@@ -595,10 +667,33 @@ def replay_dependency_order(inputs, clause):
     if len(set(outs)) > 1:
         orders = sorted({o.split()[1] for o in outs})
         return (
-            f"3 fresh processes (same program with 7 requirement dependencies, random.seed(1), numpy.random.seed(1); different heap histories / PYTHONHASHSEED) built "
+            f"3 fresh processes (same program with {what}, random.seed(1), numpy.random.seed(1); different heap histories / PYTHONHASHSEED) built "
             f"Scenario.dependencies with the requirement values in {len(orders)} different orders {orders}; (order, iterations needed) per process: {sorted(set(o[6:] for o in outs))}"
         )
     return None
+
+
+CLOSURE_PROGRAM = """
+ego = new Object
+def mk(v):
+    def h():
+        return v
+    return h
+fs = [mk(Range(0, 1)) for i in range(6)]
+f0, f1, f2, f3, f4, f5 = fs
+require f0() + f1() + f2() + f3() + f4() + f5() < 5.9
+"""
+
+
+def replay_closure_order(inputs, clause):
+    """Same idea as replay_dependency_order, for a requirement that calls six helper closures over random values."""
+    script = ORDER_SCRIPT.split("import scenic, numpy")[0] + (
+        "import scenic, numpy\nsrc = " + repr(CLOSURE_PROGRAM) + "\nrandom.seed(1); numpy.random.seed(1)\nsc = scenic.scenarioFromString(src)\n"
+        "ns = sc.dynamicScenario._dummyNamespace\n"
+        "cells = {id(ns['f%d' % i].__closure__[0].cell_contents): str(i) for i in range(6)}\n"
+        "order = [cells.get(id(d), '') for d in sc.dependencies]\nscene, its = sc.generate()\nprint('ORDER', ''.join(order), its)\n"
+    )
+    return _run_order_script(script, "a requirement calling 6 helper closures, each over its own random value")
 
 
 def replay_rng_frame(inputs, clause):
